@@ -161,11 +161,29 @@ def run_tests(scratch, w):
     return "tests-pass" if p.returncode == 0 else "tests-fail"
 
 
-def run_checks(scratch, w):
+def props_for(relpath):
+    """the checks whose rules look at this file (a recheck runs only those)"""
+    b = os.path.basename(relpath)
+    if relpath.startswith("rustradio_macros"):
+        return ["C04", "C05", "C08", "C09", "C12", "C15", "C19"]
+    table = {
+        "circular_buffer.rs": ["C01", "C02", "C03", "C04", "C09", "C12", "C18"],
+        "stream.rs": ["C03", "C04", "C05", "C09"],
+        "graph.rs": ["C04", "C05", "C06", "C07"], "mtgraph.rs": ["C04", "C05", "C06", "C07"],
+        "file_sink.rs": ["C08", "C09", "C13", "C17"],
+        "file_source.rs": ["C08", "C09", "C14", "C15", "C16"], "tcp_source.rs": ["C08", "C09", "C14", "C15", "C16"],
+        "sigmf.rs": ["C08", "C09", "C14", "C15", "C16"], "vector_source.rs": ["C08", "C09", "C12", "C15", "C16"],
+        "lib.rs": ["C09", "C14", "C15", "C16"], "au.rs": ["C08", "C09", "C14", "C15"],
+        "hdlc_deframer.rs": ["C08", "C09", "C13", "C15"],
+    }
+    return table.get(b, ["C05", "C06", "C08", "C09", "C12", "C15"])
+
+
+def run_checks(scratch, w, relpath=None):
     fired = []
     env = dict(os.environ, RR_REPO=scratch, RR_TARGET_SUFFIX="-sw%d" % w, RR_EVIDENCE_DIR=os.path.join(scratch, "_evidence"),
                RR_REPORT_DIR=os.path.join(scratch, "_reports"))
-    for p in PROPS:
+    for p in (props_for(relpath) if relpath else PROPS):
         r = subprocess.run([os.path.join(VERIF, "check"), p], env=env, stdout=subprocess.PIPE, stderr=subprocess.STDOUT, text=True)
         for k in re.findall(r"^  rule=\S+ key=(.*)$", r.stdout, re.M):
             fired.append(k[:160])
@@ -183,9 +201,12 @@ def worker(w, q, results, total):
             p = os.path.join(scratch, mu["file"])
             orig = open(p).read()
             lines = orig.split("\n")
-            if lines[mu["line"] - 1] != mu["old"]:
-                mu["status"] = "stale"
-                results.append(mu)
+            if mu["line"] - 1 >= len(lines) or lines[mu["line"] - 1] != mu["old"]:
+                if mu.get("recheck") and mu.get("_prev") is not None:
+                    results.append(mu["_prev"])       # the file changed under this mutant (a later fix): keep its earlier record
+                else:
+                    mu["status"] = "stale"
+                    results.append(mu)
                 continue
             lines[mu["line"] - 1] = mu["new"]
             open(p, "w").write("\n".join(lines))
@@ -194,12 +215,13 @@ def worker(w, q, results, total):
                 st = mu["status"] if mu.get("recheck") else run_tests(scratch, w)
                 mu["status"] = st
                 if st in ("tests-pass", "test-timeout"):
-                    fired = run_checks(scratch, w)
+                    fired = run_checks(scratch, w, mu["file"] if mu.get("recheck") else None)
                     mu["fired"] = fired
                     mu["internal"] = [k for k in fired if k.startswith(("internal", "extract"))]
             finally:
                 open(p, "w").write(orig)
             mu["secs"] = round(time.time() - t0, 1)
+            mu.pop("_prev", None)
             results.append(mu)
             print("[%d/%d] %-26s:%-4d %-28s %-12s %s" % (len(results), total, mu["file"][-26:], mu["line"], mu["op"][:28], mu["status"],
                                                          (mu.get("fired") or [""])[0][:70] if "fired" in mu else ""), flush=True)
@@ -258,7 +280,7 @@ def main(argv):
         for m in muts:
             d0 = done.get(m["id"])
             if d0 and d0["status"] in ("tests-pass", "test-timeout") and not (only_silent and d0.get("fired")):
-                m2 = dict(m, status=d0["status"], recheck=True)
+                m2 = dict(m, status=d0["status"], recheck=True, _prev=d0)
                 todo.append(m2)
                 del done[m["id"]]
     if limit:
